@@ -745,12 +745,16 @@ def check_flag_enum(ctx, comp, cls, case):
         ok = True
         if name != '0':
             for part in name.split('|'):
-                if part not in mem:
+                # a printed name means what attribute lookup on the class
+                # says it means (so a flag redefined in a derived class has
+                # the derived value, whichever classes the library scans)
+                pv = getattr(cls, part, None) if part.isupper() else None
+                if not isinstance(pv, int) or isinstance(pv, bool):
                     ok = False
                     break
-                if mem[part] | v != v:
+                if pv | v != v:
                     ok = False
-                back |= mem[part]
+                back |= pv
         if not ok or back != v:
             ctx.fail(comp, 'F-parse-back', dict(case, value=v), name,
                      'parses to %d' % v)
@@ -775,7 +779,15 @@ def generated_flags_case(ctx, case):
     """case {members: [(name, value)]}"""
     from minecraft.networking.types import BitFieldEnum
     d = {n: v for n, v in case['members']}
-    cls = type('GenFlags', (BitFieldEnum,), dict(d))
+    base = BitFieldEnum
+    if case.get('base'):
+        # derived flag enum: may redefine flags of its base (a bit that
+        # moved in a newer revision); inherited flags may or may not be used
+        base = type('GenBase', (BitFieldEnum,), dict(case['base']))
+        ctx.label('flags_derived_enum')
+        if any(n in d and d[n] != v for n, v in case['base']):
+            ctx.label('flags_derived_enum_redefines')
+    cls = type('GenFlags', (base,), dict(d))
     check_flag_enum(ctx, 'generated_flags', cls, case)
 
 
@@ -943,13 +955,22 @@ def t_flags(ctx, n):
         st.integers(0, 255))), min_size=1, max_size=8,
         unique_by=lambda t: t[0])
 
-    def body(c, m):
+    def body(c, mb):
+        m, b = mb
         case = {'members': m}
+        if b:
+            case['base'] = b
         generated_flags_case(c, case)
-        enum_case(c, case)
+        enum_case(c, {'members': m})
         if c.evaluations % 5000 < 300:
             c.sample(case, 'generated_flags')
-    hyp(ctx, 'gen_flags', mem, body, n)
+    hyp(ctx, 'gen_flags', st.tuples(mem, st.one_of(st.none(), mem)), body, n)
+    for case in ({'members': [['WRITE', 8]],
+                  'base': [['READ', 1], ['WRITE', 2], ['EXEC', 4]]},
+                 {'members': [['HARDCORE', 0x80]],
+                  'base': [['SURVIVAL', 0], ['CREATIVE', 1], ['ADVENTURE', 2],
+                           ['SPECTATOR', 3], ['HARDCORE', 8]]}):
+        generated_flags_case(ctx, case)
 
 
 def tasks(tier):
